@@ -4,8 +4,8 @@
    (field ranges = the widths pack writes, enum members, header frag_len/auth_len consistent with the
    message). pdu_unpack fuel bs returns the decoded PDU and the number of loop iterations (ticks). *)
 From V Require Import Prelude.Base Prelude.PyInt Prelude.PySlice Prelude.PyStr gen.K_rpc gen.C_rpc.
-From V Require Import Model.Pdu Model.Request Model.RpcLoop Model.Bind Model.RpcDispatch Model.Epm.
-From V Require Import Proofs.RpcKernels Proofs.RpcPdu Proofs.RpcBind Proofs.RpcRoundtrip Proofs.RpcEpm Proofs.RpcExamples Proofs.RpcTotal.
+From V Require Import Model.Pdu Model.Request Model.RpcLoop Model.Bind Model.Verification Model.RpcDispatch Model.Epm.
+From V Require Import Proofs.RpcKernels Proofs.RpcPdu Proofs.RpcBind Proofs.RpcRoundtrip Proofs.RpcEpm Proofs.RpcExamples Proofs.RpcTotal Proofs.RpcVerification.
 
 (* ---- padding kernels (regenerated from _bind.py / _epm.py) ---- *)
 Theorem C12_pad_bindack : forall n, k_bindack_pack_pad n = k_bindack_unpack_pad n /\
@@ -113,6 +113,34 @@ Theorem C12_rt_ept_map_result : forall m fuel, wf_ept_map_result m = true -> (le
 Proof. exact (fun m fuel H Hf => conj (ept_map_result_rt m fuel H Hf) (ept_map_result_pack_norm m)). Qed.
 Print Assumptions C12_rt_ept_map_result.
 
+(* ---- verification trailer (_rpc/_verification.py). A command of a known class (bitmask1, pcontext, header2) packs
+        from its typed fields and keeps the raw `value` octets only as a cache filled in by unpack (DESIGN.md section 2,
+        "raw value cache"): the decoded command is command_norm c = same class, same typed fields, same flags,
+        command = the class constant, value = exactly what pack emitted.  Unknown command types (any 14-bit type
+        outside the registry) carry any value of at most 65535 octets. ---- *)
+Theorem C12_rt_command : forall c rest, wf_command c = true ->
+  command_unpack (command_pack c ++ rest) = Ok (command_norm c) /\ command_unpack (command_pack c) = Ok (command_norm c)
+  /\ command_pack (command_norm c) = command_pack c
+  /\ cmd_kind_of (command_norm c) = cmd_kind_of c /\ cmd_flags (command_norm c) = cmd_flags c
+  /\ cmd_command (command_norm c) = command_type c /\ cmd_value (command_norm c) = command_value c.
+Proof. exact (fun c rest H => conj (command_rt c rest H) (conj (command_unpack_pack c H) (conj (command_pack_norm c)
+  (conj eq_refl (conj eq_refl (conj eq_refl eq_refl)))))). Qed.
+Print Assumptions C12_rt_command.
+
+(* a command that was itself produced by unpack (or a generic one) is a fixed point: unpack (pack c) = c *)
+Theorem C12_rt_command_fixpoint : forall c, wf_command c = true -> command_norm c = c ->
+  command_unpack (command_pack c) = Ok c.
+Proof. exact (fun c H E => eq_ind (command_norm c) (fun x => command_unpack (command_pack c) = Ok x) (command_unpack_pack c H) c E). Qed.
+Print Assumptions C12_rt_command_fixpoint.
+
+(* any number (>= 1) of commands, exactly the last one carrying SEC_VT_COMMAND_END; ticks = number of commands *)
+Theorem C12_rt_verification_trailer : forall cmds fuel, wf_commands cmds = true ->
+  (length (verification_trailer_pack cmds) <= fuel)%nat ->
+  verification_trailer_unpack fuel (verification_trailer_pack cmds) = Ok (map command_norm cmds, len cmds)
+  /\ verification_trailer_pack (map command_norm cmds) = verification_trailer_pack cmds.
+Proof. exact (fun cmds fuel H Hf => conj (verification_trailer_rt cmds fuel H Hf) (verification_trailer_pack_norm cmds)). Qed.
+Print Assumptions C12_rt_verification_trailer.
+
 (* ---- termination / cost on arbitrary octets. Full statement (C12_total_M for every decoder M: with fuel = length + 1
         M.unpack never returns OutOfFuel and its ticks are <= length + 300) is proved below for the floor loop and for
         EptMapResult.unpack only; the other decoders are listed as partial in the check module and covered by the
@@ -129,6 +157,19 @@ Theorem C12_total_ept_map_result_partial : forall bs fuel, len bs < Z.of_nat fue
 Proof. exact ept_map_result_unpack_total. Qed.
 Print Assumptions C12_total_ept_map_result_partial.
 
+(* fuel = length + 1 meets the fuel hypothesis of every C12_total_* theorem *)
+Theorem C12_fuel_len1 : forall bs : bytes, len bs < Z.of_nat (S (length bs)).
+Proof. exact len_lt_S. Qed.
+Print Assumptions C12_fuel_len1.
+
+(* VerificationTrailer.unpack on ANY octet string (no well-formedness needed): never out of fuel; a successful decode made
+   t >= 1 loop iterations, kept t commands, and 8 + 4 t <= length (constants: ticks <= (length - 8) / 4) *)
+Theorem C12_total_verification_trailer : forall bs fuel, len bs < Z.of_nat fuel ->
+  verification_trailer_unpack fuel bs <> Raise OutOfFuel /\
+  forall cs t, verification_trailer_unpack fuel bs = Ok (cs, t) -> 1 <= t /\ 8 + 4 * t <= len bs /\ len cs = t.
+Proof. exact verification_trailer_unpack_total. Qed.
+Print Assumptions C12_total_verification_trailer.
+
 (* ---- the hypotheses are satisfiable by non-trivial messages ---- *)
 Example C12_example_bind_ack : exists m packed bsa,
   ba_sec_addr m = [52; 57; 54; 54; 56] /\ length (ba_results m) = 2%nat /\
@@ -137,3 +178,6 @@ Proof. exact example_bind_ack. Qed.
 Example C12_example_ept_map_result : exists m, length (er_towers m) = 2%nat /\ wf_ept_map_result m = true
   /\ len (tower_bytes (hd [] (er_towers m))) mod 8 = 0.
 Proof. exact example_ept_map_result. Qed.
+Example C12_example_commands : wf_commands ex_commands = true /\ length ex_commands = 4%nat /\
+  forallb wf_command ex_commands = true /\ len (verification_trailer_pack ex_commands) = 87.
+Proof. exact example_commands. Qed.
